@@ -1,6 +1,7 @@
 package main
 
 import (
+	"runtime"
 	"context"
 	"errors"
 	"fmt"
@@ -307,6 +308,13 @@ func genC10(r *Run) {
 			}
 		}
 	}
+	// overflow beyond what can be in flight
+	for k := 0; k < r.N(12, 200); k++ {
+		for _, v6 := range []bool{false, true} {
+			checkOverflow(r, v6, 12, 8+k%4, []int{1, 0, 2}[k%3])
+			evals++
+		}
+	}
 	// a held matcher: the per-transaction buffer fills up, nothing solicited may be lost or reordered
 	for n := 2; n <= 7; n++ { // at most 7 datagrams can be in flight while the matcher is held
 		for acceptFrom := 0; acceptFrom <= n; acceptFrom++ { // n: nothing is acceptable
@@ -456,24 +464,32 @@ func heldMatcherScenario(v6 bool, payloads []byte, acceptFrom int) (seen []byte,
 			}()
 		}
 		synctest.Wait()
-		for _, p := range payloads {
-			var b []byte
-			if v6 {
-				m := &dhcpv6.Message{MessageType: dhcpv6.MessageTypeReply, TransactionID: dhcpv6.TransactionID{0, 0, 7}}
-				m.AddOption(&dhcpv6.OptionGeneric{OptionCode: 4000, OptionData: []byte{p}})
-				b = m.ToBytes()
-			} else {
-				m, _ := dhcpv4.New(dhcpv4.WithTransactionID(dhcpv4.TransactionID{0, 0, 0, 7}), dhcpv4.WithHwAddr(labHW),
-					dhcpv4.WithMessageType(dhcpv4.MessageTypeOffer), dhcpv4.WithGeneric(dhcpv4.GenericOptionCode(224), []byte{p}))
-				m.OpCode = dhcpv4.OpcodeBootReply
-				b = m.ToBytes()
+		// the datagrams arrive one after the other on the socket; the loop takes them as fast as it can (with the
+		// matcher held: one in the matcher, five queued, one parked - the rest wait in the socket until the call
+		// takes delivery again)
+		fed := make(chan struct{})
+		go func() {
+			defer close(fed)
+			for _, p := range payloads {
+				var b []byte
+				if v6 {
+					m := &dhcpv6.Message{MessageType: dhcpv6.MessageTypeReply, TransactionID: dhcpv6.TransactionID{0, 0, 7}}
+					m.AddOption(&dhcpv6.OptionGeneric{OptionCode: 4000, OptionData: []byte{p}})
+					b = m.ToBytes()
+				} else {
+					m, _ := dhcpv4.New(dhcpv4.WithTransactionID(dhcpv4.TransactionID{0, 0, 0, 7}), dhcpv4.WithHwAddr(labHW),
+						dhcpv4.WithMessageType(dhcpv4.MessageTypeOffer), dhcpv4.WithGeneric(dhcpv4.GenericOptionCode(224), []byte{p}))
+					m.OpCode = dhcpv4.OpcodeBootReply
+					b = m.ToBytes()
+				}
+				select {
+				case conn.in <- b:
+				case <-conn.closed:
+					return
+				}
 			}
-			select {
-			case conn.in <- b:
-			case <-conn.closed:
-			}
-			synctest.Wait()
-		}
+		}()
+		synctest.Wait()
 		close(gate)
 		synctest.Wait()
 		select {
@@ -483,9 +499,33 @@ func heldMatcherScenario(v6 bool, payloads []byte, acceptFrom int) (seen []byte,
 		}
 		<-done
 		closer()
+		<-fed
 		synctest.Wait()
 	})
 	return
+}
+
+// checkOverflow: more datagrams than the matcher-held call can have in flight (12 > 7), the first acceptable one late
+// in the stream; run with one and with many processors (whatever carries the overflow must keep arrival order)
+func checkOverflow(r *Run, v6 bool, n, acceptFrom, procs int) {
+	payloads := make([]byte, n)
+	for i := range payloads {
+		payloads[i] = byte(10 + i)
+	}
+	if procs > 0 {
+		defer runtime.GOMAXPROCS(runtime.GOMAXPROCS(procs))
+	}
+	seen, out := heldMatcherScenario(v6, payloads, acceptFrom)
+	what := fmt.Sprintf("v6=%v: matcher held on the first of %d datagrams with the call's id (more than fit in flight), acceptable from position %d, GOMAXPROCS %d", v6, n, acceptFrom, procs)
+	for i := range seen {
+		if i >= len(payloads) || seen[i] != payloads[i] {
+			r.Fail("c10-arrival-order", what, fmt.Sprintf("the matcher saw %v, arrival order %v", seen, payloads))
+			return
+		}
+	}
+	if acceptFrom < n && (out.status != 1 || out.payload != payloads[acceptFrom]) {
+		r.Fail("c10-first-acceptable", what, fmt.Sprintf("call returned status %d payload %d, want payload %d (the matcher saw %v)", out.status, out.payload, payloads[acceptFrom], seen))
+	}
 }
 
 // reuseAfterFullBuffer: call A's buffer is full and the receive loop is parked on one more datagram for it when A
